@@ -436,7 +436,7 @@ func genRdata(r *Rng, pl *specPlan, nameMode int, plainStr bool) (rd []byte, fie
 			fields[s.Field] = v
 			kinds[s.Field] = "uint"
 		case "UnpackDomainName":
-			ls := genLabels(r, nameMode)
+			ls := nameFor(r, nameMode)
 			rd = append(rd, wireOf(ls)...)
 			fields[s.Field] = ls
 			kinds[s.Field] = "name"
@@ -446,7 +446,7 @@ func genRdata(r *Rng, pl *specPlan, nameMode int, plainStr bool) (rd []byte, fie
 		case "unpackDataDomainNames":
 			var all [][][]byte
 			for i := 0; i < r.Intn(3); i++ {
-				ls := genLabels(r, nameMode)
+				ls := nameFor(r, nameMode)
 				rd = append(rd, wireOf(ls)...)
 				all = append(all, ls)
 			}
@@ -534,7 +534,7 @@ func genRdata(r *Rng, pl *specPlan, nameMode int, plainStr bool) (rd []byte, fie
 				fields["GatewayAddr"] = b
 				kinds["GatewayAddr"] = "ip"
 			case 3:
-				ls := genLabels(r, nameMode)
+				ls := nameFor(r, nameMode)
 				rd = append(rd, wireOf(ls)...)
 				fields["GatewayHost"] = ls
 				kinds["GatewayHost"] = "name"
@@ -565,7 +565,7 @@ func genRR(r *Rng, typ uint16, nameMode int, plainStr bool) *GenRR {
 	if r.Chance(10) {
 		g.Class = uint16(genUint(r, 2))
 	}
-	g.Owner = genLabels(r, nameMode)
+	g.Owner = nameFor(r, nameMode)
 	pl := t.byCode[typ]
 	if pl != nil {
 		g.Rdata, g.Fields, g.Kinds, g.Plain = genRdata(r, pl, nameMode, plainStr)
